@@ -433,7 +433,7 @@ def state_roundtrip(res, tier):
             out += subclasses(s)
         return out
     classes = sorted(set(subclasses(State)), key=lambda c: (c.__module__, c.__name__))
-    palette = [0, 1.5, -2.0, True, False, 'abc', None, [1, 2], (0.5, 0.25)]
+    palette = [0, 0.0, 1.5, -2.0, True, False, 'abc', '', None, [1, 2], [], (0.5, 0.25)]
     skipped = []
     for cls in classes:
         if not cls.__module__.startswith('glue.'):
